@@ -737,7 +737,7 @@ Section Swap.
     - intros c Hc Hin. apply In_akeys_adel in Hc. destruct Hc as [Hc1 Hc2].
       apply In_upd_nth_const in Hin. destruct Hin as [Hin|Hin]; [eapply K11; eauto|congruence].
     - intros c Hc. apply In_akeys_adel in Hc. apply K12, Hc.
-    - intros c Hin. apply In_upd_nth_const in Hin. destruct Hin as [Hin|->]; [auto|].
+    - intros c Hin. apply In_upd_nth_const in Hin. destruct Hin as [Hin| ->]; [auto|].
       apply K12. eapply aget_In_keys, Hr.
     - intros k c. rewrite aget_rekey. destruct (aget (b_aff s) k) as [c0|] eqn:E; [|discriminate].
       cbn. intros E'; inv E'. destruct (N.eqb_spec c0 (sl_conn ref)) as [->|Hc0].
@@ -757,9 +757,9 @@ Section Swap.
       + assert (c <> sc) by congruence.
         exists c. rewrite aget_adel_neq, !aget_aset_neq, aget_adel_neq by auto. auto.
     - intros [c [H1 H2]]. rewrite aget_adel, !aget_aset in *.
-      destruct (N.eqb_spec (sl_conn ref) c) as [<-|Hc]; [discriminate|].
-      destruct (N.eqb_spec sc c) as [<-|Hc'].
-      + inv H2. destruct (aget (b_scstates s) (sl_conn ref)) as [x|] eqn:E; [|discriminate].
+      destruct (N.eqb_spec (sl_conn ref) c) as [_|Hc]; [discriminate|].
+      destruct (N.eqb_spec sc c) as [Heq|Hc'].
+      + subst c. injection H2 as E2; subst j. destruct (aget (b_scstates s) (sl_conn ref)) as [x|] eqn:E; [|discriminate].
         inv H1. exists (sl_conn ref). split; auto.
         destruct (scstates_screfs s HK _ _ E) as [j' Hj']. rewrite Hj'. f_equal. apply swap_old_slot, Hj'.
       + rewrite aget_adel_neq in H2 by auto. eauto.
@@ -769,7 +769,7 @@ Section Swap.
   Proof.
     pose proof swap_InvK as HK'.
     pose proof swap_ne as Hne. pose proof swap_sc_refs as Hsr. pose proof swap_sc_st as Hss.
-    destruct HI as (_ & HF & HP & HC & HG & HS). repeat apply conj; [exact HK'| | | | |].
+    pose proof HI as HI'. destruct HI' as (_ & HF & HP & HC & HG & HS). repeat apply conj; [exact HK'| | | | |].
     - (* InvF *)
       unfold InvF, swap_state in *; sb. destruct HF as [F1 F2]. constructor.
       + rewrite akeys_rekey. exact F1.
